@@ -12,20 +12,22 @@
 static pev EV[1024]; static int NEV;
 static pev CV[1024]; static int NCV;          /* continuation alphabet (c09) */
 static struct { arb arb; } M;
+static int IFX;                                /* interface the closure runs on (1: the SECOND interface of the responder; interface 0 saw a frame first) */
 static int mode;                               /* 2, 3, 9, 19 (allocation-ledger monitors on the protocol closure) */
 static struct { uint8_t first_seen; } M19;
 static uint32_t base_blocks; static uint64_t base_bytes;      /* the per-interface record of a fresh responder, measured */
 
 static void ev_name(int ev, char *buf, size_t cap) { pev_name(&EV[ev], buf, cap); }
 static void cv_name(int ev, char *buf, size_t cap) { pev_name(&CV[ev], buf, cap); }
-static void root_setup(void) { M.arb.v = ARB_NONE; }
+static void touch_if0(void) { if (IFX) { pev d = ev_discover(0, ST_M3, ST_M3, 0x7777, 3); vf_trace_clear(); drv_linux(&d, 0); pev p = ev_probe(0x04, 0, ST_S1, ST_S1, ST_OWN, ST_OWN); drv_linux(&p, 0); vf_trace_clear(); } }
+static void root_setup(void) { M.arb.v = ARB_NONE; touch_if0(); }
 
 static void apply(int ev) {
     const pev *e = &EV[ev];
     int expect = arb_step(&M.arb, e);
-    drv_linux(e, 0);
-    if (mode == 2) { oracle_wellformed(0); oracle_solicited(e); }
-    if (mode == 3) oracle_hello(e, 0, expect);
+    drv_linux(e, IFX);
+    if (mode == 2) { oracle_wellformed(IFX); oracle_solicited(e); }
+    if (mode == 3) oracle_hello(e, IFX, expect);
 }
 
 /* ------------------------------------------------------------------ c19 on the protocol closure */
@@ -113,6 +115,8 @@ int main(int argc, char **argv) {
     vf_parse_args(argc, argv, prop);
     mode = !strcmp(A.mode, "c03") ? 3 : !strcmp(A.mode, "c09") ? 9 : !strcmp(A.mode, "c19p") ? 19 : 2;
     vf_world_init(A.mtu, A.wifi, (uint8_t)A.fill);
+    IFX = (mode == 2 || mode == 3) && A.b == 1;
+    if (IFX) { W.iface[1].flags = 0x0800; W.iface[1].iftype = 71; W.iface[1].speed = 540000; W.iface[1].wifi = !A.wifi; memcpy(W.iface[1].ssid, "second", 6); W.iface[1].ssid_len = 6; }
     int small = (mode == 9 && A.a == 1);
     NEV = sigma_build(EV, 1024, mode == 3 ? SIGMA_DISC : small ? SIGMA_SMALL : SIGMA_P);
     NCV = sigma_build(CV, 1024, small ? SIGMA_SMALL : SIGMA_P);
